@@ -33,7 +33,7 @@ def run(run):
         "temporary tables hold the literal values they were filled with (INSERT is C05's subject)",
     ]
     run.obligations_for(["Csvq.Props.C03"])
-    run.stream("c03", 600 if q else 3000, timeout=3000)
+    run.stream("c03", 900 if q else 3000, timeout=3000)
     if not q:
         for k in range(1, 4):
             run.stream("c03", 2000, seed_offset=k, timeout=3000)
